@@ -149,6 +149,23 @@ fn gen_proj(t: &mut Tape) -> Proj {
             files[i].includes.push(spelled);
         }
     }
+    // A file name that means two different files: `lib/zs.circom` (found through -L lib from a file that
+    // has no sibling of that name) and `sub/zs.circom` (the sibling of `sub/zb.circom`, which includes it
+    // by the same text). The includer of the library copy is parsed first.
+    let mut shadow_includer: Option<usize> = None;
+    if libs.iter().any(|l| l == "lib") && t.chance(70) {
+        let base = files.len();
+        files.push(FileSpec { rel: "lib/zs.circom".into(), includes: vec![], templates: vec![format!("T{base}x0")], functions: vec![] });
+        files.push(FileSpec { rel: "sub/zs.circom".into(), includes: vec![], templates: vec![format!("T{}x0", base + 1)], functions: vec![] });
+        files.push(FileSpec { rel: "sub/zb.circom".into(), includes: vec!["zs.circom".into()], templates: vec![format!("T{}x0", base + 2)], functions: vec![] });
+        let mut inc = vec!["zs.circom".to_string(), "sub/zb.circom".to_string()];
+        if t.chance(128) {
+            inc.reverse();
+        }
+        files.push(FileSpec { rel: "za.circom".into(), includes: inc, templates: vec![format!("T{}x0", base + 3)], functions: vec![] });
+        shadow_includer = Some(base + 3);
+    }
+    let n = files.len();
     // named files
     let mut named = Vec::new();
     let k = 1 + t.below(2.min(n));
@@ -162,6 +179,11 @@ fn gen_proj(t: &mut Tape) -> Proj {
                 _ => files[j].rel.clone(),
             };
             named.push((j, spelled));
+        }
+    }
+    if let Some(a) = shadow_includer {
+        if !named.iter().any(|(j, _)| *j == a) {
+            named.push((a, files[a].rel.clone()));
         }
     }
     let absolute_args = t.chance(100);
@@ -340,6 +362,9 @@ fn check_project_in(ctx: &Ctx, p: &Proj, rec: &Rec, root: &Path) -> Verdict {
         bases.dedup();
         if bases.len() < n {
             rec.class("projects_with_one_file_name_in_several_directories");
+        }
+        if p.files.iter().any(|f| f.rel == "za.circom") {
+            rec.class("projects_with_library_file_shadowed_by_a_sibling");
         }
     }
     if p.files.iter().any(|f| f.includes.iter().any(|i| !i.contains('/') || i.contains("/../"))) && !p.libs.is_empty() {
